@@ -247,6 +247,7 @@ func (p *poller) start() {
 	defer logging.Debug("NBIO[%v][%v_%v] stopped", p.g.Name, p.pollType, p.index)
 
 	if p.isListener {
+		defer p.g.wgListener.Done()
 		p.acceptorLoop()
 	} else {
 		defer func() { _ = syscall.Close(p.kfd) }()
